@@ -48,7 +48,7 @@ def build(config, tier):
         # recomposition on the shear-free lattice
         body = ("unsafe { crate::uf::SQRT_PINNED = true; } let qi = sp::lat4(1); let n2 = sp::norm2(qi); vk::assume(n2 == 1 || n2 == 4); let e = sp::qmat(qi);\n"
                 "    let sg = sp::lat3(1); let sm = sp::lat3(1); vk::assume(sg[0] != 0 && sg[1] != 0 && sg[2] != 0); let si = [sg[0] * (1 + sm[0] * sm[0]), sg[1] * (1 + sm[1] * sm[1]), sg[2] * (1 + sm[2] * sm[2])]; let ti = sp::lat3(1);\n"
-                "    let mi: [i64; 12] = [e[0] / n2 * si[0], e[1] / n2 * si[0], e[2] / n2 * si[0], e[3] / n2 * si[1], e[4] / n2 * si[1], e[5] / n2 * si[1], e[6] / n2 * si[2], e[7] / n2 * si[2], e[8] / n2 * si[2], ti[0], ti[1], ti[2]];\n")
+                "    let mi: [i16; 12] = [e[0] / n2 * si[0], e[1] / n2 * si[0], e[2] / n2 * si[0], e[3] / n2 * si[1], e[4] / n2 * si[1], e[5] / n2 * si[1], e[6] / n2 * si[2], e[7] / n2 * si[2], e[8] / n2 * si[2], ti[0], ti[1], ti[2]];\n")
         if nn == 16:
             body += "    let m = <%s>::from_cols_array(&[mi[0] as f%d, mi[1] as f%d, mi[2] as f%d, 0.0, mi[3] as f%d, mi[4] as f%d, mi[5] as f%d, 0.0, mi[6] as f%d, mi[7] as f%d, mi[8] as f%d, 0.0, mi[9] as f%d, mi[10] as f%d, mi[11] as f%d, 1.0]);\n" % ((T,) + (w,) * 12)
         else:
